@@ -54,9 +54,11 @@ MANIFEST = dict(
          'p <= 257 and all d with p^(d/2) within the trial budget, and d = 1 for p in {65537, 2^31-1, 2^61-1}.',
     ref='DESIGN 5/C24',
     note='trusted: the schoolbook reference in mc/ref/polys.py (sieve cross-checked with trial division inside every '
-         'run); finite declared domain only. Known deviation classes of the generic next_irreducible get their own keys '
-         '(skips-x, skips-nonmonic, find_irreducible degree 1) with a fallback law inside the class, so any other '
-         'deviation is reported as :wrong.')
+         'run); finite declared domain only. Recorded known class: the generic next_irreducible returns the next MONIC '
+         'irreducible (as its docstring says), so whenever the true successor in the integer order is non-monic the key is '
+         'C24:next_irreducible:odd-p:skips-nonmonic, and inside that class the fallback law "result == smallest monic '
+         'irreducible strictly above the argument (x included)" is enforced; any other deviation is :wrong (or :skips-x / '
+         'find_irreducible:degree1-odd-p when x is skipped, which is no longer expected).')
 
 
 # -- harness helpers: deterministic examples, hang guard -----------------------------------
@@ -179,7 +181,7 @@ _tables = {}
 
 def table(p, D):
     """(T, nxt, fb): T[n] irreducible flag; nxt[n] = smallest irreducible code > n (or None);
-    fb[n] = smallest code > n of a monic irreducible with non-zero constant term (fallback law)."""
+    fb[n] = smallest code > n of a monic irreducible (fallback law of the known non-monic class)."""
     key = (p, D)
     if key not in _tables:
         T = R.irreducible_table(p, D)
@@ -196,23 +198,26 @@ def table(p, D):
             nxt[n], fb[n] = cur, cur_fb
             if T[n]:
                 cur = n
-                if n % p and R.from_int(n, p)[-1] == 1:
+                if R.from_int(n, p)[-1] == 1:
                     cur_fb = n
         _tables[key] = (T, nxt, fb)
     return _tables[key]
 
 
-def class_key(kind, p, n, got, nxt, fb):
-    """None if next_irreducible is right, else the violation key."""
+def class_key(kind, p, n, got, nxt, mon):
+    """None if next_irreducible is right, else the violation key.
+
+    Recorded known class (documented 'next MONIC irreducible'): the true successor in the integer order is
+    non-monic; inside that class the fallback law is: result == smallest monic irreducible strictly above
+    the argument (x included). Everything else is an ordinary violation."""
     true = nxt[n]
     if got == true:
         return None
-    if kind == 'generic' and got is not None and got == fb[n] and true is not None:
-        where = 'odd-p' if p != 2 else 'generic-p2'
-        if true == p:
-            return f'C24:next_irreducible:{where}:skips-x'
-        if R.from_int(true, p)[-1] != 1:
-            return f'C24:next_irreducible:{where}:skips-nonmonic'
+    where = 'binary' if kind == 'binary' else 'odd-p' if p != 2 else 'generic-p2'
+    if true is not None and true == p:
+        return f'C24:next_irreducible:{where}:skips-x'
+    if true is not None and got is not None and R.from_int(true, p)[-1] != 1 and got == mon[n]:
+        return f'C24:next_irreducible:{where}:skips-nonmonic'
     return 'C24:next_irreducible:wrong'
 
 
@@ -314,7 +319,7 @@ def check_find(part, p, d):
     part.case(nontrivial=True)
     part.outcomes.add(('find', p if p < 20 else 'big', d, gc == want))
     if gc != want:
-        if p != 2 and d == 1 and gc == (1, 1):
+        if p != 2 and d == 1:
             key = 'C24:find_irreducible:degree1-odd-p'
         else:
             key = 'C24:find_irreducible:wrong'
